@@ -242,6 +242,10 @@ class _GitTransaction:
             Whether the target ref was updated. If not, the work tree
             still contains the changes and must be rolled back.
         """
+        old_target = None
+        if self.__push and not self.__dry_run:
+            old_target = self.__read_target_ref()
+
         LOGGER.debug("Writing updated tree to database")
         tree = self.__write_tree()
 
@@ -264,7 +268,14 @@ class _GitTransaction:
             return True
 
         LOGGER.debug("Pushing updated ref %r", self.__targetref)
-        self.__push_updates("origin")
+        try:
+            self.__push_updates("origin")
+        except BaseException:
+            # The remote did not take the commit, and the caller gets
+            # an error: the commit must not stay on the local branch.
+            assert old_target is not None
+            self.__restore_target_ref(commit, old_target)
+            raise
         return True
 
     def __rollback(self) -> None:
@@ -328,14 +339,42 @@ class _GitTransaction:
             name = b""
         return name.decode("utf-8").strip()
 
-    def __update_target_ref(self, commit: str) -> None:
+    def __update_target_ref(self, commit: str, *expected: str) -> None:
         """Update the local ``__target_ref``."""
         self.__handler._git(
             "update-ref",
             f"-m[{capellambse.__name__}] Commit by capellambse",
             self.__targetref,
             commit,
+            *expected,
         )
+
+    def __read_target_ref(self) -> str:
+        """Return the commit ``__target_ref`` points at, "" if none."""
+        try:
+            hash = self.__handler._git(
+                "rev-parse",
+                "--verify",
+                "--quiet",
+                self.__targetref,
+                silent=True,
+                encoding="ascii",
+            )
+        except subprocess.CalledProcessError as err:
+            if err.returncode != 1:
+                raise
+            return ""
+        return hash.strip()
+
+    def __restore_target_ref(self, commit: str, old: str) -> None:
+        """Undo ``__update_target_ref`` after a failed push."""
+        LOGGER.debug("Restoring ref %r to %r", self.__targetref, old)
+        if old:
+            self.__update_target_ref(old, commit)
+        else:
+            self.__handler._git(
+                "update-ref", "-d", self.__targetref, commit
+            )
 
     def __write_tree(self) -> str:
         """Write the tree built up in the git index to the database."""
